@@ -11,7 +11,7 @@ EXTENDS Serial
 
 ARec(dn, dl, v) == [c |-> "Array", v |-> v, p |-> -1, dn |-> Canon(dn), dl |-> dl]
 ItemW(a) == a.dl * Unit(Canon(a.dn))
-NItems(a) == Len(a.v) \div ItemW(a)
+NItems(a) == IF ItemW(a) = 0 THEN 0 ELSE Len(a.v) \div ItemW(a)
 ItemBits(a, i) == Sub(a.v, i * ItemW(a), (i + 1) * ItemW(a))          \* i is 0-based
 Trailing(a) == Sub(a.v, NItems(a) * ItemW(a), Len(a.v))
 \* items of a 'bits' Array are bitstring objects cut out of the (BitArray) data
